@@ -1,7 +1,7 @@
 """C17 scheduling laws: nothing syncs before it has aged; oldest eligible goes first (E1 with explicit time)."""
 import json
 
-from .. import report
+from .. import report, env
 from ..world import World, ENGINE, _show_tree
 from ..seqx import viol, digest
 from .base import Driver, run_explore
@@ -37,6 +37,18 @@ class D(Driver):
         p.events = events
         st = w.cs.state
         orig_change = st.change
+        w.punted = set()
+        import cloudsync.sync.state as _S
+        if not getattr(_S.SyncEntry.punt, "_vmc", False):
+            _orig_punt = _S.SyncEntry.punt
+
+            def punt(self_):
+                wcur = getattr(env.CUR, "world", None)
+                if wcur is not None and hasattr(wcur, "punted"):
+                    wcur.punted.add(id(self_))
+                return _orig_punt(self_)
+            punt._vmc = True
+            _S.SyncEntry.punt = punt
 
         def change(age):
             ret = orig_change(age)
@@ -51,8 +63,19 @@ class D(Driver):
             for e in st._changeset_storage:
                 if e._priority < 0:
                     paths = [e[sd]._path for sd in (0, 1) if e[sd]._path]
-                    if paths and not any(w.prioritize(sd, pth) < 0 for sd in (0, 1) for pth in [e[sd]._path] if pth):
+                    # (a folder is pulled forward, with a slightly lower value, when an urgent entry below it needs it first)
+                    kids_urgent = any(o is not e and o._priority < 0 and any(
+                        o[sd]._path and e[sd]._path and o[sd]._path.startswith(e[sd]._path + "/") for sd in (0, 1))
+                        for o in st._changeset_storage)
+                    if paths and not kids_urgent and \
+                            not any(w.prioritize(sd, pth) < 0 for sd in (0, 1) for pth in [e[sd]._path] if pth):
                         w.pick_errors.append(("urgent-without-cause", (tuple(_leaf(x) for x in paths), e._priority)))
+            # an entry the application marks urgent (for a path it has now) keeps a negative priority until it is deferred
+            for e in st._changeset_storage:
+                if e._priority >= 0 and id(e) not in w.punted:
+                    ps = [e[sd]._path for sd in (0, 1) if e[sd]._path]
+                    if ps and all(w.prioritize(0, pth) < 0 for pth in ps):
+                        w.pick_errors.append(("urgent-demoted", (tuple(_leaf(e[sd]._path) for sd in (0, 1)), e._priority)))
             if ret is None:
                 if elig:
                     w.pick_errors.append(("eligible-not-picked", [(_leaf(e[0]._path), e._priority) for e in elig]))
@@ -108,6 +131,10 @@ class D(Driver):
                         names.add(_leaf(op[1]))
             if min(prio.get(n_, 0) for n_ in names) < 0:
                 continue
+            # a folder that an urgent object below it needs first is created ahead of its own ageing
+            if any(op[0] in ("create", "write", "mkdir") and ("/" + target + "/") in ("/" + op[1]) and prio.get(_leaf(op[1]), 0) < 0
+                   for sc in w.scripts for op in sc):
+                continue
             if t + 1e-9 < w.notified[target] + A_:
                 vs.append(viol("propagated-before-aged", "%s:%s" % (name, target),
                                {"write_time": t, "notified": w.notified[target], "aging": A_, "call": name}))
@@ -127,6 +154,7 @@ SCRIPTS = {
     "cz": [["create", "z", "Z1"], ["write", "x", "X1"]],
     "xx": [["write", "x", "X1"], ["write", "x", "X2"]],     # a second notification must restart the ageing clock
     "rn": [["rename", "x", "z"], ["write", "z", "Z1"]],     # an urgent name renamed to an ordinary one is ordinary afterwards
+    "dir": [["mkdir", "q"], ["create", "q/x", "X1"]],       # an urgent file inside a folder that is itself still pending
 }
 BASE = [["create", "x", "x0"], ["create", "y", "y0"]]
 
